@@ -73,6 +73,9 @@ int main() {
   printf("#define SIZEOF_OptString %zu\n", sizeof(std::optional<std::string>)); printf("#define SIZEOF_OptInt %zu\n", sizeof(std::optional<int>));
   O(MediaType_top, Mime::MediaType, top_); O(MediaType_sub, Mime::MediaType, sub_); O(MediaType_suffix, Mime::MediaType, suffix_); O(MediaType_raw, Mime::MediaType, raw_);
   O(MediaType_rawSubIndex, Mime::MediaType, rawSubIndex); O(MediaType_rawSuffixIndex, Mime::MediaType, rawSuffixIndex); O(MediaType_params, Mime::MediaType, params); O(MediaType_q, Mime::MediaType, q_); S(MediaType, Mime::MediaType);
+  O(Transport_writesQueue, Tcp::Transport, writesQueue); O(Transport_timersQueue, Tcp::Transport, timersQueue); O(Transport_peersQueue, Tcp::Transport, peersQueue); O(Transport_notifier, Tcp::Transport, notifier);
+  O(PollableQueue_event_fd, PollableQueue<Tcp::Transport::WriteEntry>, event_fd); S(FdSetEntry, Aio::FdSet::Entry); O(Event_flags, Polling::Event, flags); O(Event_tag, Polling::Event, tag);
+  printf("#define VP_NOTIFY_READ %d\n#define VP_NOTIFY_WRITE %d\n", (int)Polling::NotifyOn::Read, (int)Polling::NotifyOn::Write);
   printf("#define SIZEOF_WriteDeque %zu\n", sizeof(std::deque<Tcp::Transport::WriteEntry>));
   printf("#define VP_MIME_TYPES ");
 #define TYPE(val, str) printf("\"%s\",", str);
